@@ -23,18 +23,20 @@ THEOREMS = ['C01_codes_inverse', 'C01_prism_perm_involutive', 'C01_orientation',
             'C01_blocks_roundtrip', 'C01_roundtrip_partial', 'C01_roundtrip_example',
             'C01_format_insensitive_blank_comment', 'C01_format_insensitive_split',
             'C01_format_insensitive_whitespace_partial', 'C01_format_insensitive_bang_fixed',
-            'C01_bang_counterexample_upstream', 'C01_split_egroup_counterexample_upstream']
+            'C01_bang_counterexample_upstream', 'C01_split_egroup_counterexample_upstream',
+            'C01_roundtrip', 'C01_exMesh_wf', 'C01_roundtrip_statement', 'C01_format_insensitive_whitespace',
+            'C01_format_insensitive_split_whole', 'C01_format_insensitive', 'C01_roundtrip_any_format']
 PARTIAL = [
-    'C01_roundtrip_partial: the full statement (Femio.C01.RoundtripStatement: readMsh (writeMsh m) = the id-keyed maps of m '
-    'restricted to referenced nodes, for every well-formed m) is proved for the row lists of the !NODE / !ELEMENT (both '
-    'branches, prism permutation) / !INITIAL CONDITION sections, for the header scan of any block sequence '
-    '(C01_blocks_roundtrip) and kernel-evaluated on one complete mixed file (C01_roundtrip_example); that blocksOf finds '
-    'exactly the written sections for symbolic group/material names, the section/material lines and '
-    'remove_useless_nodes are tied by the correspondence only',
-    'C01_format_insensitive_split: proved for extract_data(concatenate=True) sections (!NODE, uniform !ELEMENT); the '
-    'mixed-element branch is covered by the correspondence; for !EGROUP the code violates it (finding G6)',
-    'C01_format_insensitive_whitespace_partial: G3 is proved per field (parseDec / parseNatTok ignore surrounding '
-    'blanks; header captures ignore blanks after commas), not lifted to whole files',
+    'C01_roundtrip / C01_roundtrip_statement (whole file, readMsh (writeMsh m) = canon m) are over the model of '
+    'write_msh / _read_msh + remove_useless_nodes and its well-formed inputs Femio.C01.WF (>= 1 node and element block, '
+    'distinct ids, one non-empty block per supported type in ELEMENT_TYPES order, referenced nodes exist, 3 coordinates, '
+    'prism rows of 6, non-empty groups with distinct \\w+ names other than ALL, \\w+ section / material names, '
+    'temperature given for the nodes in node order); the earlier C01_roundtrip_partial (row lists only) is kept but '
+    'superseded',
+    'C01_format_insensitive (G1-G4, any sequence of steps, arbitrary text) - G4 needs a data row on both sides of a cut '
+    'in an !ELEMENT block (an empty !ELEMENT block makes the mixed branch of the real reader raise; decide-d example in '
+    'Lemmas/FistrG4.lean) and a header that belongs to !NODE or !ELEMENT only; for !EGROUP the code violates G4 '
+    '(finding G6, C01_split_egroup_counterexample_upstream); G3 data lines are lines not starting with "!" on both sides',
     'C01_orientation_volume_affine: signed-volume equality is proved for affine prisms (for non-planar quads the two '
     'tet decompositions differ); the geometry-independent statement is the face-cycle theorem C01_orientation',
     'decimal <-> binary rounding of %.12E / float() is runtime (trusted: correctly rounded); arbitrary doubles are '
